@@ -88,7 +88,13 @@ def r8_1(ctx, fx):
         seen.add(key)
         who = "%s::%s" % (f.clsn, f.name)
         regions = token_regions(ctx, rid, f)
-        decs = [x for x in f.walk() if x["k"] == "unop" and x.get("op") == "--" and "tp" in f.text(x)]
+        def _is_deref_tp(y):
+            y = f.deref(y)
+            while y is not None and y["k"] in ("cast", "paren") and y.get("c"):
+                y = f.deref(y["c"][0])
+            return y is not None and y["k"] == "unop" and y.get("op") == "*" and f.text(f.deref(y["c"][0])) == "tp"
+        decs = [x for x in f.walk() if (x["k"] == "unop" and x.get("op") in ("--", "++") and "tp" in f.text(x))
+                or (x["k"] == "assign" and x.get("c") and _is_deref_tp(x["c"][0]))]
         passes_on = [c for c in f.calls() if any(f.text(a) == "tp" for a in f.call_args(c))]
         if not regions:
             n += 1
